@@ -507,6 +507,54 @@ func runValue(c *core.Child, env *build.Env, m *model.Schema, f *model.FieldDef,
 			}
 		}
 	}
+	// ---- route F: the probed argument next to a second one (other: Int = 99)
+	// in every literal / variable mix and both orders: an argument written as a
+	// literal keeps its value whatever its neighbour is made of, an argument not
+	// written takes its default
+	if len(f.Args) > 1 && val != nil {
+		mixes := []struct {
+			text string
+			vars map[string]interface{}
+		}{
+			{fmt.Sprintf("query($x: %s) { %s(a: $x, other: 5) }", tn, f.Name), map[string]interface{}{"x": val}},
+			{fmt.Sprintf("query($x: %s) { %s(other: 5, a: $x) }", tn, f.Name), map[string]interface{}{"x": val}},
+			{fmt.Sprintf("query($x: %s, $o: Int) { %s(a: $x, other: $o) }", tn, f.Name), map[string]interface{}{"x": val, "o": 6}},
+			{fmt.Sprintf("query($x: %s, $o: Int) { %s(a: $x, other: $o) }", tn, f.Name), map[string]interface{}{"x": val}},
+		}
+		if lit, ok := literalOf(m, t, val); ok {
+			mixes = append(mixes, struct {
+				text string
+				vars map[string]interface{}
+			}{fmt.Sprintf("query($o: Int) { %s(a: %s, other: $o) }", f.Name, nast.PrintValue(lit)), map[string]interface{}{"o": 6}})
+			mixes = append(mixes, struct {
+				text string
+				vars map[string]interface{}
+			}{fmt.Sprintf("query($o: Int = 8) { %s(other: $o, a: %s) }", f.Name, nast.PrintValue(lit)), nil})
+		}
+		for _, mx := range mixes {
+			docM, perr := syntax.Parse([]byte(mx.text))
+			if perr != nil {
+				c.Violation("harness:ref-parse", perr.Msg, mx.text)
+				continue
+			}
+			expM := exec.Execute(m, docM, "", mx.vars, nil, env.Seed)
+			if expM.VarStatus != coerce.OK {
+				continue
+			}
+			var rM *harness.Run
+			if c.Guard("panic:Do", mx.text, func() { rM = harness.Do(env, mx.text, "", mx.vars, nil, nil) }) {
+				continue
+			}
+			c.Eval(1)
+			c.Feature("route:mixed-literal-and-variable-arguments")
+			for _, mm := range respcmp.Compare(expM, rM.Result) {
+				report("mixed-arguments", mx.text, "mismatch:"+mm.Class, mm.Msg)
+			}
+			for _, mm := range harness.CompareInvocations(expM, rM.Events, true) {
+				report("mixed-arguments", mx.text, "mismatch:"+mm.Class, mm.Msg)
+			}
+		}
+	}
 	c.Sample("routes", map[string]interface{}{"type": tn, "value": val, "arg_default": arg.Default, "resolver_args": harness.CanonArgs(gotArgs)})
 	// ---- route B: the same value as an inline literal
 	lit, ok := literalOf(m, t, val)
